@@ -84,9 +84,12 @@ def rule_load_dispatch(ctx):
                         "path that reaches the dispatch")
     f = ctx.prog.func("partitura.io:load_score", "F6-load")
     ctx.touch(f)
-    chain = find_chain(f, "extension", 4)
+    exts = {norm(a.targets[0]) for a in own_nodes(f.node) if isinstance(a, ast.Assign) and isinstance(a.targets[0], ast.Name) and "splitext" in norm(a.value)}
+    ctx.require(len(exts) == 1, "F6-load", f.qname, "extension variable (os.path.splitext) not found")
+    extv = next(iter(exts))
+    chain = find_chain(f, extv, 4)
     ctx.require(chain is not None, "F6-load", f.qname, "extension dispatch not found")
-    br = lift_chain(chain, "extension")
+    br = lift_chain(chain, extv)
     want = {"load_musicxml": {".mxl", ".xml", ".musicxml"}, "load_score_midi": {".mid", ".midi"}, "load_mei": {".mei"},
             "load_kern": {".krn", ".kern"}, "load_match": {".match"}}
     got = {}
@@ -101,7 +104,7 @@ def rule_load_dispatch(ctx):
                   msg=f"extensions routed to {fn}: {sorted(got.get(fn, []))}, expected {sorted(exts)}")
     ctx.check(any(b.kind == "else" and b.raises for b in br), "F6-load", "unknown extension raises", func=f,
               construct="loader:else", msg="an unsupported extension must raise")
-    defs = [n for n in own_nodes(f.node) if isinstance(n, ast.Assign) and norm(n.targets[0]) == "extension"]
+    defs = [n for n in own_nodes(f.node) if isinstance(n, ast.Assign) and norm(n.targets[0]) == extv]
     ctx.require(defs, "F6-load", f.qname, "no definition of `extension`")
     for d in defs:
         ok = isinstance(d.value, ast.Call) and isinstance(d.value.func, ast.Attribute) and d.value.func.attr == "lower"
